@@ -31,14 +31,14 @@ Fixpoint valid_utf8 (l : list N) : bool :=
 (** split at LF; the final chunk is a line only if non-empty (BufRead::lines) *)
 Fixpoint split_lf (bs : list N) (cur : list N) : list (list N) :=
   match bs with
-  | [] => match cur with [] => [] | _ => [rev cur] end
-  | b :: t => if b =? 10 then rev cur :: split_lf t [] else split_lf t (b :: cur)
+  | [] => match cur with [] => [] | _ => [rev_append cur []] end
+  | b :: t => if b =? 10 then rev_append cur [] :: split_lf t [] else split_lf t (b :: cur)
   end.
 
 (** lines() strips one trailing CR after removing the LF *)
 Definition strip_cr (l : list N) : list N :=
-  match rev l with
-  | 13 :: r => rev r
+  match rev_append l [] with
+  | 13 :: r => rev_append r []
   | _ => l
   end.
 
